@@ -9,9 +9,40 @@ COMMON_ASSUMPTIONS = [
     "extraction rewrites listed under coverage.units[].rewrites_applied preserve behaviour (rules D1-R14, A1, S in DESIGN.md 2.1)",
 ]
 
+K = lambda name, file, fn: dict(name=name, target=("oxidize-pdf-core/src/" + file, fn))
+
 PROPS = {
+    "C05": dict(
+        verus=["rc4"],
+        kani=[K("c05_perm_print", "encryption/permissions.rs", "Permissions::set_print/can_print"),
+              K("c05_perm_modify", "encryption/permissions.rs", "Permissions::set_modify_contents/can_modify_contents"),
+              K("c05_perm_copy", "encryption/permissions.rs", "Permissions::set_copy/can_copy"),
+              K("c05_perm_annot", "encryption/permissions.rs", "Permissions::set_modify_annotations/can_modify_annotations"),
+              K("c05_perm_forms", "encryption/permissions.rs", "Permissions::set_fill_forms/can_fill_forms"),
+              K("c05_perm_access", "encryption/permissions.rs", "Permissions::set_accessibility/can_access_for_accessibility"),
+              K("c05_perm_assemble", "encryption/permissions.rs", "Permissions::set_assemble/can_assemble"),
+              K("c05_perm_hq", "encryption/permissions.rs", "Permissions::set_print_high_quality/can_print_high_quality"),
+              K("c05_perm_new_and_flags", "encryption/permissions.rs", "Permissions::new/from_flags/flags/all")],
+        not_decided="AES paths (dependency crates), password->key derivation end to end, unlock_with_password, decrypt_object_if_needed, the trailer /Encrypt clause of write_xref_stream",
+    ),
+    "C16": dict(
+        kani=[K("c16_from_degrees_all_i32", "operations/rotate.rs", "RotationAngle::from_degrees/to_degrees"),
+              K("c16_combine", "operations/rotate.rs", "RotationAngle::combine")],
+        not_decided="that output page k is input page order[k] with the same content, resources and boxes (Page::from_parsed_with_content; file I/O); MediaBox-origin handling",
+    ),
+    "C23": dict(
+        verus=["rc4"],
+        kani=[K("c05_perm_new_and_flags", "encryption/permissions.rs", "Permissions::new/from_flags/flags/all")],
+        not_decided="AES-CBC/PKCS#7 (aes, cbc crates), MD5/SHA (md5, sha2 crates), Algorithms 2-10 glue pending",
+    ),
+    "C26": dict(
+        kani=[K(f"c26_increment_be_{n}", "text/cmap.rs", "increment_be") for n in (1, 2, 3, 4)] +
+             [K(f"c26_calculate_offset_{n}", "text/cmap.rs", "calculate_offset") for n in (1, 2, 3, 4)],
+        not_decided="CMap tokenizer/parser, bfrange array form, code-space rejection, ToUnicode builder round trip",
+    ),
     "C07": dict(
         verus=["runlength"],
+        kani=[K("c07_paeth_predictor_png_spec", "parser/filters.rs", "paeth_predictor")],
         not_decided="LZW, CCITT, Flate (dependency), ASCIIHex/ASCII85 (iterator adapters; outside Verus), PNG/TIFF predictors pending",
     ),
     "C08": dict(
@@ -20,6 +51,7 @@ PROPS = {
     ),
     "C21": dict(
         verus=["tokenizer"],
+        kani=[K("c21_finite_or_zero_all_f64", "graphics/color.rs", "finite_or_zero")],
         not_decided="numeric operands and formatting, operator vocabulary dispatch, marked-content property lists, TJ arrays",
     ),
     "C27": dict(
